@@ -8,6 +8,7 @@ import (
 	"encoding/json"
 	"fmt"
 	"os"
+	"path/filepath"
 	"strings"
 
 	"mellium.im/xmpp"
@@ -185,6 +186,7 @@ func (x *runner) coreWalk(r *hx.Rand, maxCalls, steps int) {
 			a.St = &st
 		}
 		acts = append(acts, a)
+		setCurrent(coreCase{Mode: "core", Actions: acts})
 		run.do(a)
 		if a.Op == "snap" && !run.failed {
 			run.oracle(false)
@@ -200,6 +202,7 @@ func (x *runner) coreReplay(acts []action, class string) {
 	if x.skip("core") && class != "replay" {
 		return
 	}
+	setCurrent(coreCase{Mode: "core", Actions: acts})
 	run, err := newCoreRun()
 	if err != nil {
 		x.res.Fail("C06/harness/setup", err.Error(), nil)
@@ -231,6 +234,7 @@ func (x *runner) coreEnumerate(r *hx.Rand, cfgs []reqCfg, sts []peerSt, cancels 
 			x.res.Fail("C06/harness/setup", err.Error(), nil)
 			return
 		}
+		setCurrent(coreCase{Mode: "core", Actions: prefix})
 		nStart, nPeer := 0, 0
 		for _, a := range prefix {
 			run.do(a)
@@ -333,6 +337,8 @@ func main() {
 	x.muc = hx.CaseFile{Name: "muc", Imports: importsExt, Ok: "muc_case_ok", Type: "muccase"}
 	x.ibb = hx.CaseFile{Name: "ibb", Imports: importsExt, Ok: "ibb_case_ok", Type: "ibbcase"}
 	xmpp.VerifSetHook(hookDispatch)
+	currentPath = filepath.Join(o.Out, "current.json")
+	defer os.Remove(currentPath)
 	r := hx.NewRand(o.Seed)
 
 	if o.Replay != "" {
